@@ -397,7 +397,50 @@ func init() {
 		if okf && okp && fmtc.Value != nil && prec.Value != nil && fmtc.Value.ExactString() == "103" && prec.Value.ExactString() == "-1" {
 			return []Term{{S: "(fmt_g_F64 " + x.S + ")", Sort: SStr, GoT: f.typeOf(call)}}
 		}
+		if okf && okp && fmtc.Value != nil && prec.Value != nil && fmtc.Value.ExactString() == "102" && prec.Value.ExactString() == "-1" {
+			f.declareFun("fmt_fs_F64", []string{SF64}, SStr)
+			return []Term{{S: "(fmt_fs_F64 " + x.S + ")", Sort: SStr, GoT: f.typeOf(call)}}
+		}
 		return []Term{f.havocVal(st, "fmtfloat", f.typeOf(call))}
+	})
+	reg("strconv.Quote", "", func(f *FuncCtx, st *State, call *ast.CallExpr, _ ast.Expr, _ *Term) []Term {
+		use(f, "strconv.Quote(s) is the %q formatter fmt_q_GoStr (injective, self-delimiting: T-FMT)")
+		x := f.expr(st, call.Args[0])
+		f.declareFun("fmt_q_GoStr", []string{SStr}, SStr)
+		return []Term{{S: "(fmt_q_GoStr " + x.S + ")", Sort: SStr, GoT: f.typeOf(call)}}
+	})
+	reg("strconv.Itoa", "", func(f *FuncCtx, st *State, call *ast.CallExpr, _ ast.Expr, _ *Term) []Term {
+		use(f, "strconv.Itoa(i) is the uninterpreted decimal formatter fmt_itoa")
+		x := f.expr(st, call.Args[0])
+		if x.Sort != SInt {
+			return []Term{f.havocVal(st, "itoa", f.typeOf(call))}
+		}
+		f.declareFun("fmt_itoa", []string{SInt}, SStr)
+		return []Term{{S: "(fmt_itoa " + x.S + ")", Sort: SStr, GoT: f.typeOf(call)}}
+	})
+	reg("fmt.Sprint", "", func(f *FuncCtx, st *State, call *ast.CallExpr, _ ast.Expr, _ *Term) []Term {
+		use(f, "fmt.Sprint(x) of a single float64 / string is the uninterpreted formatter fmt_v_F64 / the string itself; other uses are opaque")
+		if len(call.Args) == 1 && !call.Ellipsis.IsValid() {
+			x := f.expr(st, call.Args[0])
+			switch x.Sort {
+			case SF64:
+				f.declareFun("fmt_v_F64", []string{SF64}, SStr)
+				return []Term{{S: "(fmt_v_F64 " + x.S + ")", Sort: SStr, GoT: f.typeOf(call)}}
+			case SStr:
+				return []Term{{S: x.S, Sort: SStr, GoT: f.typeOf(call)}}
+			}
+		} else {
+			for _, a := range call.Args {
+				f.expr(st, a)
+			}
+		}
+		return []Term{f.havocVal(st, "sprint", f.typeOf(call))}
+	})
+	reg("strings.Join", "", func(f *FuncCtx, st *State, call *ast.CallExpr, _ ast.Expr, _ *Term) []Term {
+		use(f, "strings.Join(a, sep) is the uninterpreted str_join (axioms in trusted/strings.spec: it depends only on the elements and the separator; 0/1/2 elements unfold)")
+		a, sep := f.expr(st, call.Args[0]), f.expr(st, call.Args[1])
+		f.declareFun("str_join", []string{a.Sort, SStr}, SStr)
+		return []Term{{S: "(str_join " + a.S + " " + sep.S + ")", Sort: SStr, GoT: f.typeOf(call)}}
 	})
 	// ---- strings.Builder (local variable receiver) ----
 	sb := func(name string, h func(f *FuncCtx, st *State, call *ast.CallExpr, cur Term, set func(Term)) []Term) {
